@@ -215,6 +215,7 @@ def sameVerdict (impl what : String) : Ans :=
 def handle : Handler := fun op args impl =>
   match op, args with
   | "det", _ => some (sameVerdict impl "same-command-different-bytes")
+  | "detslow", _ => some (sameVerdict impl "same-command-different-bytes-a-second-later")
   | "detchain", _ => some (sameVerdict impl "reformat-chain-changes-bytes")
   | "detboot", _ => some (sameVerdict impl "distboot-differs-from-seqboot-then-distance")
   | "detdist", _ => some (sameVerdict impl "compute-distance-differs-from-the-library-call")
